@@ -31,3 +31,25 @@ def regs (p : Nat) (hs : List Nat) : Array Nat :=
 def mergeRegs (a b : Array Nat) : Array Nat := Array.zipWith max a b
 
 end HllSpec
+
+/-! ### histograms (C18) -/
+namespace HllSpec
+
+/-- cell `k` of the register histogram: how many registers equal `k` -/
+def hist (regs : List Nat) (k : Nat) : Nat := regs.countP (· == k)
+
+/-- the register pairs `(K1[j], K2[j])` position by position -/
+abbrev Pairs := List (Nat × Nat)
+
+/-- cell `i < q` of the "A × B half" histogram of Ertl's joint estimator as used by
+    `joint_mle_dispatch`: positions where A's register is `i` and not below B's, plus positions
+    where B's register is `i+1` and above A's -/
+def halfCell (zs : Pairs) (i : Nat) : Nat :=
+  zs.countP (fun ab => (ab.1 == i && decide (ab.2 ≤ ab.1)) || (ab.2 == i + 1 && decide (ab.1 < ab.2)))
+
+/-- the same cell, through the class of a position: `K1` if `K2 ≤ K1`, else `K2 - 1` -/
+def halfClass (ab : Nat × Nat) : Nat := if ab.2 ≤ ab.1 then ab.1 else ab.2 - 1
+
+def swap (zs : Pairs) : Pairs := zs.map (fun ab => (ab.2, ab.1))
+
+end HllSpec
